@@ -110,6 +110,14 @@ func errGuard(info *types.Info, e ast.Expr) bool {
 }
 
 func checkC07(c *Ctx) {
+	c.Decides("ARGSWAP: no call in package tree passes two same-typed identifiers named like the callee's parameters at each other's positions (removeRoot / removeTips); PATH: the collapse operations and Resolve have no successful return that skips their worker (RemoveEdges / resolveRecur)")
+	c.argSwap("ARGSWAP", []string{"tree"}, "leaves all other splits with their lengths and supports and all names untouched")
+	c.Floor("ARGSWAP", 3)
+	for _, w := range [][2]string{{"CollapseShortBranches", "RemoveEdges"}, {"CollapseLowSupport", "RemoveEdges"}, {"CollapseTopoDepth", "RemoveEdges"}, {"Resolve", "resolveRecur"}} {
+		if fi := c.Func("tree", "Tree", w[0]); fi != nil {
+			c.noEarlySuccess("PATH", fi, w[1], nil, "removes exactly the inner branches that satisfy the documented criterion / yields a fully binary tree")
+		}
+	}
 	c.Decides("GF: the three selection predicates are the documented relations, boundary included (length <= l; support present and < s; min <= depth <= max), applied to the very slice handed to RemoveEdges; the contraction in RemoveEdges is unreachable for a tip branch and is skipped exactly for root-adjacent branches unless removeRoot")
 	c.Decides("LF: resolving a multifurcation gives every re-created branch the (length, support, p-value) of the branch it replaces and the connecting branch (0, NIL_SUPPORT, NIL_PVALUE); AddBipartition likewise transfers the three values; PAIR: the edits of RemoveEdges/resolveRecur/AddBipartition are two-sided")
 	c.DoesNotDecide("that all other splits survive with their values, that the resolved tree is binary, distance preservation")
